@@ -489,6 +489,58 @@ func c10Prop(t *rapid.T) {
 				modelRel[k] = c10Clone(proto)
 			}
 		},
+		"createSameAgain": func(t *rapid.T) {
+			// the very release that is stored (or one that differs only in its user labels) is created again, as a
+			// retried request would: still already-exists, and nothing changes
+			if len(model) == 0 {
+				t.Skip("nothing stored")
+			}
+			var ks []c10Key
+			for k := range model {
+				ks = append(ks, k)
+			}
+			sort.Slice(ks, func(i, j int) bool {
+				return ks[i].name < ks[j].name || (ks[i].name == ks[j].name && ks[i].rev < ks[j].rev)
+			})
+			k := rapid.SampledFrom(ks).Draw(t, "key")
+			again := c10Clone(modelRel[k])
+			if rapid.Bool().Draw(t, "otherLabels") {
+				again.Labels = map[string]string{"retried": "yes"}
+			}
+			sawPrecondFail = true
+			trace = append(trace, fmt.Sprintf("create-same-again %s/%d", k.name, k.rev))
+			for _, b := range backs {
+				if got := c10ErrClass(b.st.Create(c10Clone(again))); got != "exists" {
+					fail(fmt.Sprintf("C10:create/want-exists-got-%s/%s", got, b.name), fmt.Sprintf("key %v (identical content created again)", k))
+				}
+			}
+		},
+		"updateLabelsOnly": func(t *rapid.T) {
+			// an update that changes nothing but the user labels must be stored like any other
+			if len(model) == 0 {
+				t.Skip("nothing stored")
+			}
+			var ks []c10Key
+			for k := range model {
+				ks = append(ks, k)
+			}
+			sort.Slice(ks, func(i, j int) bool {
+				return ks[i].name < ks[j].name || (ks[i].name == ks[j].name && ks[i].rev < ks[j].rev)
+			})
+			k := rapid.SampledFrom(ks).Draw(t, "key")
+			nr := c10Clone(modelRel[k])
+			nr.Labels = map[string]string{"relabelled": rapid.SampledFrom([]string{"a", "b", ""}).Draw(t, "labelValue")}
+			if rapid.IntRange(0, 3).Draw(t, "noLabels") == 0 {
+				nr.Labels = nil
+			}
+			trace = append(trace, fmt.Sprintf("update-labels-only %s/%d %v", k.name, k.rev, nr.Labels))
+			for _, b := range backs {
+				if ec := c10ErrClass(b.st.Update(c10Clone(nr))); ec != "ok" {
+					fail("C10:update/existing-key-fails/"+b.name, fmt.Sprintf("key %v got %s (labels-only update)", k, ec))
+				}
+			}
+			model[k], modelRel[k] = c10Canon(nr), nr
+		},
 		"updateReadBack": func(t *rapid.T) {
 			// read-modify-write as the actions do it: the release object comes from Query/List/Get of that very backend,
 			// only its status changes, and it is written back
@@ -723,7 +775,7 @@ func c10Prop(t *rapid.T) {
 }
 
 func TestC10(t *testing.T) {
-	evid.Extra("rule", "C10: rapid state machine of create/update/get/delete/query/list/history/last calls with generated releases over 2-4 generated release names x four revision numbers drawn from 1..101 (often with different digit counts), including updates that write back a release object exactly as Query/List/Get of that backend returned it with only the status changed, run in lock-step on the memory, Secret and ConfigMap backends and a reference map; after every call error classes, returned releases and result sets are compared, followed by a full scan. Non-trivial = the sequence contains a call whose precondition fails (create existing / get, update, delete missing) and a status query after a status-changing update, or uses a release name containing a dot; distinct by (names, call sequence).")
+	evid.Extra("rule", "C10: rapid state machine of create/update/get/delete/query/list/history/last calls with generated releases over 2-4 generated release names x four revision numbers drawn from 1..101 (often with different digit counts), including updates that write back a release object exactly as Query/List/Get of that backend returned it with only the status changed, re-creation of a stored release with identical content, and updates that change nothing but the user labels, run in lock-step on the memory, Secret and ConfigMap backends and a reference map; after every call error classes, returned releases and result sets are compared, followed by a full scan. Non-trivial = the sequence contains a call whose precondition fails (create existing / get, update, delete missing) and a status query after a status-changing update, or uses a release name containing a dot; distinct by (names, call sequence).")
 	evid.Extra("assumptions", []string{
 		"Secret/ConfigMap backends run over client-go's fake clientset (no real API server, no size limit of 1 MiB per object enforced)",
 		"integers in values are limited to |n| <= 2^53 (the record format is JSON; larger integers are not representable)",
